@@ -639,7 +639,8 @@ def national_expectation(S, entries, cc, b):
       rule="valid IBANs of all countries (several per country, with registry banks) and registry BICs: all "
            "accessors compared with the model and with the published positions read from the live table; "
            "from_bban(country, bban) round trip; non-trivial = distinct accepted object "
-           "; plus one BBAN text under every pair of countries that admit it (A, B, A, B), and texts with alias check digits (an accepted one must re-assemble to itself)",
+           "; plus one BBAN text under every pair of countries that admit it (A, B, A, B), and texts with alias check digits (an accepted one must re-assemble to itself)"
+           "; BBANs beginning with their own country code and a digit pair, for every country whose structure admits it",
       note="slicing identities proved for the model; IBAN-level accessors are checked against the BBAN-level "
            "ones on the implementation (they are proxies in the code)")
 def c11(run):
@@ -1230,7 +1231,8 @@ def expected_lookup(entries, cc, code):
            "unlisted banks; plus synthetic registries (ties, empty and null BICs, empty bank codes, "
            "non-primary-first order) installed into the library through its own index builder; "
            "non-trivial = distinct lookup "
-           "; plus one BBAN text under every pair of countries that admit it, keys of registry entries that lack an expected field, and seeded pinned draws in small-registry countries before all their lookups",
+           "; plus one BBAN text under every pair of countries that admit it, keys of registry entries that lack an expected field, and seeded pinned draws in small-registry countries before all their lookups"
+           "; entries whose BIC or bank code is not in compact upper-case alphanumeric form are always looked up",
       note="theorems are for every registry; `RegistryBicsOk` for the bundled one is a C17 obligation")
 def c12(run):
     from realops import registry_lines
@@ -1804,7 +1806,8 @@ def expected_generate(S, cc, bank, account, branch):
            "field's class and from a wild alphabet (signs, letters in numeric fields, Unicode digits, whitespace, "
            "lower case), combined-width bank codes with and without an explicit branch code, unknown countries; "
            "read-back of every supplied component, precise error class for over-long values, no foreign "
-           "exception; non-trivial = distinct (country, components)",
+           "exception; non-trivial = distinct (country, components)"
+           "; all normalisation-sensitive code points inside otherwise valid components",
       note="padding, placement and error-class theorems; generate_total (no foreign exception for any country "
            "string and any component strings) and generate_ok (a returned IBAN is accepted and carries every "
            "supplied component, cleaned and padded or split at combined width, at the published position) "
@@ -1910,7 +1913,8 @@ def c08(run):
            "countries in varying order; for every country with positions: components are read off nationally "
            "valid IBANs and the BBAN is rebuilt and compared outside filler positions; non-trivial = distinct IBAN"
            "; other spellings of the country code (lower / mixed case, blanks) through generate and random: whatever "
-           "is built must validate nationally",
+           "is built must validate nationally"
+           "; components with every run of leading zeros / all zeros / all nines for every field of every computing country",
       note="compute -> validate proved per algorithm; build_validates / generate_passes_national prove the "
            "end-to-end agreement for the 19 countries and `rebuild` proves parse -> rebuild (live tables, every "
            "registry naming no method); random draws are checked dynamically")
@@ -2098,7 +2102,8 @@ def c09(run):
            "prefix-related (8 vs 11 characters, ...XXX), neighbours in code-point order}: all six comparison "
            "operators, hash equality, dict lookup, sorted(); copy / deepcopy / pickle protocols 0-5 of valid and "
            "unvalidated objects incl. the BBAN held by an IBAN; pickles re-loaded in a fresh interpreter under "
-           "another PYTHONHASHSEED; non-trivial = distinct pair / object",
+           "another PYTHONHASHSEED; non-trivial = distinct pair / object"
+           "; the same text under every pair of kinds of object; copies of objects holding a normalisation-sensitive character",
       note="comparison laws proved for the model; copy protocol proved from class facts of the live classes; "
            "CPython's copyreg/pickle are trusted and exercised")
 def c16(run):
@@ -2550,7 +2555,8 @@ def thread_search_if_dirty(run, pairs):
            "two real threads under a deterministic line-level scheduler (sys.settrace hand-off inside schwifty/); "
            "all single-preemption schedules up to a budget, each in a forked child; a schedule whose results "
            "differ from running alone is the replay; non-trivial = distinct (pair, schedule) "
-           "; directed by the effect probe (only when it saw writes after import): mixed pairs of ordinary calls, a repeated call against a flood of 6000 distinct calls (preempted after each line), and cold-start pairs with every schedule in a fresh interpreter",
+           "; directed by the effect probe (only when it saw writes after import): mixed pairs of ordinary calls, a repeated call against a flood of 6000 distinct calls (preempted after each line), and cold-start pairs with every schedule in a fresh interpreter"
+           "; a failing call next to an ordinary call (a schedule that does not return is a violation); two concurrent generations; one account per distinct outcome of every method from a worker thread vs the main thread",
       note="non-interference proved for the per-thread-state model; effect probe ties it to the code; real "
            "preemption finer than a source line, the free-threaded build and third-party modules are not modelled")
 def c14(run):
@@ -2778,7 +2784,8 @@ def recorded_random(cc, seed, use_registry, pinned):
            "strings) and the model evaluated on that choice record; result valid or the overflow error, pinned "
            "components read back, listed-bank membership, equal results for equal seeds, also in fresh "
            "interpreters under other PYTHONHASHSEEDs and after other calls; the no-country form; non-trivial = "
-           "distinct (country, seed, mode, pinned)",
+           "distinct (country, seed, mode, pinned)"
+           "; seeded draws compared across process configurations (hash seeds, -O, -OO, C locale without UTF-8 mode)",
       note="validity/error/determinism, pinned read-back and listed-bank membership proved on the choice-record "
            "model; random.Random, rstr.xeger and the recording wrapper are trusted; cross-process reproducibility "
            "is a dynamic check")
